@@ -109,6 +109,8 @@ pub struct RawServer {
     pub bytes_sent: u64,
     pub bytes_received: u64,
     pub key_bits: u32,
+    /// sender certificate of the most recent asymmetric (OPN) chunk
+    pub last_sender_cert: ByteString,
 }
 
 impl RawServer {
@@ -127,6 +129,7 @@ impl RawServer {
             bytes_sent: 0,
             bytes_received: 0,
             key_bits: 2048,
+            last_sender_cert: ByteString::null(),
         }
     }
 
@@ -295,7 +298,10 @@ impl RawServer {
                             };
                             let token_id = match &info.security_header {
                                 opcua::core::comms::security_header::SecurityHeader::Symmetric(s) => s.token_id,
-                                _ => 0,
+                                opcua::core::comms::security_header::SecurityHeader::Asymmetric(a) => {
+                                    self.last_sender_cert = a.sender_certificate.clone();
+                                    0
+                                }
                             };
                             return match Chunker::decode(&chunks, &self.chan, None) {
                                 Ok(m) => SrvRecv::Msg {
@@ -337,7 +343,7 @@ impl RawServer {
     /// The sender certificate of the most recent asymmetric (OPN) chunk is kept by the channel as
     /// its remote certificate; return it as a byte string.
     pub fn remote_cert_bytes(&self) -> ByteString {
-        self.chan.remote_cert().map(|c| c.as_byte_string()).unwrap_or_else(ByteString::null)
+        self.last_sender_cert.clone()
     }
 
     /// HEL -> ACK, OPN(issue) -> response. Returns false when the client did something else.
